@@ -204,15 +204,55 @@ pub fn run(ctx: &Ctx) -> Report {
     });
     st = st.merge(st_b);
 
+    // (f) long paths (length thresholds), each canonicalised in BOTH modes one right after the other on the
+    //     same thread, in both orders: the answer for one mode must not be what the other mode just produced
+    let pad_lens: Vec<usize> = {
+        let mut v = vec![0usize, 30, 40, 50];
+        v.extend(56..=70);
+        v.extend([100, 127, 128, 129, 200, 255, 256, 257, 500, 1000, 1015, 1020, 1021, 1022, 1023, 1024, 1025, 1026, 1030, 2000, 4096, 5000]);
+        v
+    };
+    let short_segs: u32 = if ctx.tier.thorough() { 3 } else { 2 };
+    let n_short = enumr::seq_count(k, short_segs);
+    let n_f = n_short * pad_lens.len() as u64 * 2 * 2;
+    let off_f = total_a + n_b;
+    let st_f = par_sweep(n_f, |i, st| {
+        let mut x = i;
+        let s3_first = x % 2 == 1;
+        x /= 2;
+        let trailing = x % 2 == 1;
+        x /= 2;
+        let pad = pad_lens[(x % pad_lens.len() as u64) as usize];
+        x /= pad_lens.len() as u64;
+        let seq = enumr::seq_decode(x, k, short_segs);
+        let tail = build_path(&seq, trailing);
+        // the padding letter differs between the two orders so that they are different strings
+        let path = format!("/{}{}", if s3_first { "q" } else { "p" }.repeat(pad), tail);
+        for (step, s3) in [s3_first, !s3_first].into_iter().enumerate() {
+            let before = st.violations.len();
+            let label = eval(off_f + i, &path, s3, st);
+            st.outcome(&format!("long:{}:{}", if s3 { "s3" } else { "std" }, label));
+            if step == 1 && st.violations.len() > before {
+                if let Some(v) = st.violations.last_mut() {
+                    // what a replay has to do first to reach the same state
+                    v.case["preceded_by"] = json!({"path": path, "s3": s3_first});
+                    v.what = format!("{} (right after the same path in the other mode)", v.what);
+                }
+            }
+        }
+        st.sample(i, n_f, || json!({"path_len": path.len(), "tail": tail, "s3_first": s3_first}));
+    });
+    st = st.merge(st_f);
+
     // (e) end to end: reference-signed requests over the path alphabet are accepted
-    let st_e = super::e2e_paths::run(ctx, total_a + n_b);
+    let st_e = super::e2e_paths::run(ctx, total_a + n_b + n_f);
     st = st.merge(st_e);
 
     Report {
         stats: st,
         rule: format!(
-            "all paths of 0..={} segments over the {}-symbol alphabet {:?} x trailing slash x {{standard,S3}}; every ASCII byte literal (3 contexts), every 2-byte UTF-8 char literal, every %XX in 4 hex-case spellings, every two-character escape %c1c2 over ASCII^2 (2 contexts), '%' followed by every pair over 10 units incl. 2/3/4-byte characters, 40 special paths; plus end-to-end signing of all <=3-segment paths. states = distinct (mode, reference normal form | error class); non-trivial = input differs from its normal form or is refused",
-            max_segs, SEGMENTS.len(), SEGMENTS
+            "all paths of 0..={} segments over the {}-symbol alphabet {:?} x trailing slash x {{standard,S3}}; every ASCII byte literal (3 contexts), every 2-byte UTF-8 char literal, every %XX in 4 hex-case spellings, every two-character escape %c1c2 over ASCII^2 (2 contexts), '%' followed by every pair over 10 units incl. 2/3/4-byte characters, 40 special paths; every path of <= {} segments behind a first segment padded to {} lengths (0..5000 bytes, every length 56..70 and 1020..1026) canonicalised in both modes back to back on one thread, in both orders; plus end-to-end signing of all <=3-segment paths. states = distinct (mode, reference normal form | error class); non-trivial = input differs from its normal form or is refused",
+            max_segs, SEGMENTS.len(), SEGMENTS, short_segs, pad_lens.len()
         ),
         bounds: json!({"max_segments": max_segs, "alphabet": SEGMENTS.len(), "modes": 2}),
         exhaustive: true,
@@ -228,6 +268,10 @@ pub fn replay(case: &Value) -> i32 {
     let path = case["path"].as_str().unwrap_or("");
     let s3 = case["s3"].as_bool().unwrap_or(false);
     let mut st = Stats::new();
+    if let Some(p) = case.get("preceded_by") {
+        let mut scratch = Stats::new();
+        eval(0, p["path"].as_str().unwrap_or(""), p["s3"].as_bool().unwrap_or(false), &mut scratch);
+    }
     let label = eval(0, path, s3, &mut st);
     println!("path={:?} s3={} outcome={}", path, s3, label);
     println!("reference: {:?}", canon_path(path, s3, false));
